@@ -58,7 +58,9 @@ func checkPos(text string) (f *fail, excluded string, nstmts int) {
 }
 
 func checkPosRef(r rfcread.RRes, text string) (f *fail, excluded string, nstmts int) {
-	if r.Excluded != "" {
+	// where a tab in a continuation line straddles the column of the opening quote, what the string
+	// says depends on how the tab is counted (outside C02's claim) - where the statements stand does not
+	if r.Excluded != "" && r.Excluded != "tab-straddles-strip-column" && r.Excluded != "tab-reading-ambiguous" {
 		return nil, r.Excluded, 0
 	}
 	if r.Err != "" || len(r.Stmts) == 0 {
